@@ -99,7 +99,8 @@ def rule_init(ctx):
             elif nd == 0:
                 st0 = [x for x in it2.store_log if x[5] == 0 and x[2][0] == "attr" and x[2][2] == "data"]
                 okv = [Form.atom(("idx", dform, Const(None))), mk_fn("reshape", [dform, Form.num(1)]), mk_fn("reshape", [dform, Form.num(-1)]), mk_fn("atleast_1d", [dform]), mk_fn("ravel", [dform])]
-                promoted = len(st0) == 1 and any(st0[0][3] == w for w in okv)
+                promoted = len(st0) == 1 and (any(st0[0][3] == w for w in okv) or
+                                              (st0[0][3] == dform and any(r.callee == "numpy.atleast_1d" and r.args and r.args[0] == dform and r.depth == 0 for r in it2.calls)))
                 ctx.check("C15.1", promoted, fi, st0[0][1] if st0 else fi.node, "0-d input promoted to one element", "data[np.newaxis]", "scalar input is not promoted to a 1-D array")
     if probs:
         ctx.violation("C15.1", fi, where, "binary_sequence.__init__: dimensionality guard", "no guard rejecting data with more than one dimension: " + "; ".join(probs))
